@@ -1053,6 +1053,7 @@ def nxRClosed (c : Cfg) (s : State) (t : Tid) : Option (Act × State) :=
     else (match x.op with
           | .recv => deqCall { x with spins := 0, reg := false, fg := x.nfl, nfl := x.nfl + 1 } .recv
           | .tryRecv => deqCall x .tryRecv
+          | .recvT0 => deqCall { x with reg := false, fg := x.nfl, nfl := x.nfl + 1 } .rt0
           | .isClosedR => { x with pc := .rSc, dq := .probe }
           | _ => deqCall x .pr1)
   some (aLoad .rClosed .relaxed (b2n b), W s x')
@@ -1523,8 +1524,6 @@ def callOk (s : State) (op : Op) : Bool :=
    | .futSend f h _ => (s.fut f).kind = .absent && s.hLive h
    | .futRecv f => (s.fut f).kind = .absent && s.rLive
    | .poll f => (s.fut f).kind ≠ .absent
-   | .dropFut f => (s.fut f).kind ≠ .absent
-   | .wakes f => (s.fut f).kind ≠ .absent
    | .nop => false
    | _ => true)
 
@@ -1545,14 +1544,14 @@ def callTh (c : Cfg) (s : State) (x : Th) (x0 : Th) (op : Op) : Th :=
   | .dropFut f =>
     let fu := s.fut f
     let x1 : Th := { x0 with myId := fu.myId, reg := fu.reg, curF := f, fin := .dropFut,
-                             res := if 0 < s.wakes f then .okWoken else .ok }
+                             res := if fu.kind ≠ .absent ∧ 0 < s.wakes f then .okWoken else .ok }
     (match fu.kind with
      | .send => if fu.myId.isSome then { x1 with pc := .uaLock } else { x1 with pc := .ret }
      | _ => if fu.reg then { x1 with pc := .auLock } else { x1 with pc := .ret })
   | .wakes f => retWith x0 (.n (s.wakes f))
   | .recv => { x0 with pc := .rClosed }
   | .tryRecv => { x0 with pc := .rClosed }
-  | .recvT0 => deqCall { x0 with reg := false, fg := x.nfl, nfl := x.nfl + 1 } .rt0
+  | .recvT0 => { x0 with pc := .rClosed }
   | .recvA => { x0 with pc := .rClosed, reg := false, blockOn := true }
   | .clone h _ => { x0 with pc := .cnAdd, h := h }
   | .closeS h => { x0 with pc := .clCas, h := h }
